@@ -25,7 +25,8 @@ RULE = ('case = 1..3 cron triggers (pattern from a pool incl. second-level '
         'patterns / first_execution_time only / both; count none,1,2,3; two '
         'projects, possibly the same trigger name in both) + start clock '
         'offset + plan of {spawn a processor pass (<=3 alive), step / finish '
-        '/ crash a processor at a yield point, advance the clock by 1 s .. 3 '
+        '/ crash a processor at a yield point, move the clock to -2 .. +1 s '
+        'around the earliest stored due time, advance the clock by 1 s .. 3 '
         'days}; then survivors finish and two uncontended passes run. '
         'Non-trivial = >= 2 processors attempted the same occurrence of a '
         'trigger, or a processor was parked inside the update/delete '
@@ -204,6 +205,11 @@ def gen_case(D):
             plan.append(['finish', D.int(0, 5)])
         elif r < 9:
             plan.append(['crash', D.int(0, 5)])
+        elif r < 10:
+            # to the neighbourhood of the earliest stored due time: 2 s / 1 s
+            # before it (inside the processors' look-ahead), exactly on it,
+            # just after it
+            plan.append(['advance_due', D.choice([-2, -1, -1, 0, 1])])
         else:
             plan.append(['advance', D.choice(ADV)])
     return {'offset': D.int(0, 59), 'triggers': trigs, 'plan': plan}
@@ -332,6 +338,12 @@ def _run(case, stats, sim, bt, rest, periodic, triggers, croniter, B):
         elif k == 'advance':
             sim.timeutils.set_time_override(
                 sim.now() + datetime.timedelta(seconds=op[1]))
+        elif k == 'advance_due':
+            nxt = [r['next'] for r in _rows(sim).values() if r['next']]
+            if nxt:
+                target = min(nxt) + datetime.timedelta(seconds=op[1])
+                if target > sim.now():      # the clock only moves forward
+                    sim.timeutils.set_time_override(target)
         observe()
     for w in live():
         B.finish(w)
@@ -575,7 +587,7 @@ def replay(path):
 
 def main(tier, seed):
     t0 = time.time()
-    opts = {'examples': common.budget(tier, 120, 4000),
+    opts = {'examples': common.budget(tier, 360, 4000),
             'time_budget': common.budget(tier, 80, 1500),
             'shrink_budget': common.budget(tier, 120, 500)}
     results = runner.run_shards('mv.props.c17', 'shard_main', 16, seed, tier,
